@@ -58,7 +58,7 @@ RULE = ("enum: every boolean mask with >=1 unmasked pixel of every shape H*W<=bo
         "distinct = distinct (shape, mask bits[, kernel]); non-trivial = the mask has at least one masked and one "
         "unmasked pixel (so the required edge set is non-empty); all-unmasked masks are run but counted trivial")
 BOUNDS = {"quick": "enum: all masks of all shapes with H*W<=12 (incl. 3x4, 4x3, 2x6, 1x12 ...), all 16 kernel shapes each; "
-                   "pad: all masks of inner shapes h,w<=3 and 1x4,4x1,2x4,4x2 x 16 kernels x <=5 frames; 2400 random masks up to 10x11",
+                   "pad: all masks of inner shapes h,w<=3 and 1x4,4x1,2x4,4x2 x 16 kernels x <=5 frames; 4000 random masks up to 10x11",
           "thorough": "enum: all masks of all shapes with H*W<=16 (incl. 4x4, 3x5, 5x3, 2x8 ...), all 16 kernel shapes each; "
                       "pad: inner shapes h,w<=3, 1x4,4x1,2x4,4x2,3x4,4x3 x 16 kernels x <=5 frames; 40000 random masks up to 12x13"}
 EXHAUSTIVE = {"quick": True, "thorough": True}
@@ -87,7 +87,7 @@ MIN_MONITORS = {"*": dict({c: 1 for c in _CONTRACTS},
 
 PAD_INNER = {"quick": [(h, w) for h in (1, 2, 3) for w in (1, 2, 3)] + [(1, 4), (4, 1), (2, 4), (4, 2)],
              "thorough": [(h, w) for h in (1, 2, 3) for w in (1, 2, 3)] + [(1, 4), (4, 1), (2, 4), (4, 2), (3, 4), (4, 3)]}
-NRAND = {"quick": 2400, "thorough": 40000}
+NRAND = {"quick": 4000, "thorough": 40000}
 
 
 def plan(tier, seed):
@@ -490,7 +490,7 @@ def check_padded(ctx, inner, k, variant, rng):
     cls.append("pad_error_expected" if leaves else "pad_result_expected")
     ctx.case("pad", m, k, nontrivial=bool(m.any()), cls=cls,
              sample=lambda: {"mask": m.astype(int).tolist(), "kernel": list(k), "frame": "exact" if variant == 0 else "one short, side %d" % variant,
-                             "error_expected": leaves, "blurring_pixels": int((~ref_blurring(m, k)[0]).sum())})
+                             "error_expected": leaves, "blurring_pixels": None if leaves else int((~ref_blurring(m, k)[0]).sum())})
 
 
 # ------------------------------------------------------------------------------ hostile random masks
